@@ -43,7 +43,10 @@ func init() {
 			{Harness: modPath + ".specHarnessDataURICharset", For: modPath + ".DataURI", QuickN: 3, ThoroughN: 4,
 				What: "data:<t/s>;charset=us-ascii<post>,x : the default charset parameter is dropped and every other byte of the media type survives"},
 		},
+		Custom:  []string{"partial"},
+		Partial: []string{modPath + ".DataURI"},
 		Notes: []string{
+			"site assertions in the real DataURI (partial contract): the default type text/plain is dropped only as a whole type - exactly text/plain or followed by a parameter (F37 found and fixed: text/plainfoo lost its prefix); the original is kept only when shorter than both encodings; the recursive call gets exactly the parsed media type and payload (the last two shared with C11)",
 			"encoding/base64 is an assumed dependency: paths of DataURI that reach base64 Encode/Decode are outside the bounded claim (counted as excluded paths)",
 			"DataURI with a registered minifier (m.Bytes succeeding) is not covered by the bounded harnesses (empty registry only)",
 			"unterminated quoted strings are outside Mediatype's claimed domain (not a media type)",
@@ -226,7 +229,7 @@ func init() {
 	registerProp(&PropSpec{
 		ID:     "C11",
 		Custom: []string{"partial", "fscan"},
-		Partial: []string{modPath + "/html.(*Minifier).Minify", modPath + "/svg.(*Minifier).Minify", modPath + ".UpdateErrorPosition", modPath + ".DataURI"},
+		Partial: []string{modPath + "/html.(*Minifier).Minify", modPath + "/svg.(*Minifier).Minify", modPath + ".UpdateErrorPosition", modPath + ".DataURI", modPath + "/css.(*cssMinifier).minifyTokens"},
 		Units:  []string{modPath + ".(*M).MinifyMimetype"},
 		Bounded: []BoundedUnit{
 			{Harness: modPath + ".specHarnessDataURIPayload", For: modPath + ".DataURI", QuickN: 3, ThoroughN: 4, What: "data: URIs with no registered minifier pass their payload through unchanged (up to re-encoding); see C18"},
